@@ -73,6 +73,7 @@ def run_one(m, keep=False, build=True):
                 return res
         fired = []
         outs = []
+        shutil.copy(os.path.join(VERIF, "KNOWN_FINDINGS.txt"), tmp)  # listed findings stay listed on the variants
         for prop in ([ONLY_PROP] if ONLY_PROP else m["prop"].split(",")):
             ev = os.path.join(tmp, prop + ".json")
             c = subprocess.run([os.path.join(VERIF, "bin", "wscheck"), "-repo", dst, "-verif", tmp, "-prop", prop, "-tier", "quick", "-evidence", ev],
